@@ -119,6 +119,11 @@ func sortedKeys[V any](m map[string]V) []string {
 }
 
 func runC07(c *Checker) {
+	// the slots of the retransmission buffer and the window fields are shared between the send and
+	// the receive goroutine: an ACK (a value the relay chooses, arriving when the relay chooses)
+	// that races with a resend can leave a nil slot under the resend cursor - the race and
+	// lock-order obligations of C18 are part of "no relay-delivered bytes can crash an endpoint"
+	importLayers(c, "C18")
 	w := c.w
 	rg := newRanger(w)
 	inv := gbnInvariants(w, rg)
